@@ -4,11 +4,13 @@ import (
 	"bytes"
 	"context"
 	"encoding/hex"
+	"errors"
 	"fmt"
 	"io"
 	"sort"
 	"strconv"
 	"strings"
+	"time"
 
 	remoteexecution "github.com/bazelbuild/remote-apis/build/bazel/remote/execution/v2"
 	"github.com/buildbarn/bb-storage/pkg/blobstore/grpcservers"
@@ -34,7 +36,19 @@ func unhex(s string) ([]byte, error) {
 	return hex.DecodeString(s)
 }
 
-var zstdPool = bb_zstd.NewUnboundedPool(nil, nil)
+// The servers and the client run with small bounded pools, so that an encoder or decoder
+// that is not released shows (a later compressed transfer cannot get one any more).
+const poolSlots = 2
+
+func newPool() bb_zstd.Pool { return bb_zstd.NewBoundedPool(poolSlots, poolSlots, nil, nil) }
+
+// opTimeout bounds every RPC of the harness: waiting for a pool slot ends with the deadline
+// and surfaces as a failed operation, never as a hang of the run.
+const opTimeout = 1500 * time.Millisecond
+
+func opContext() (context.Context, context.CancelFunc) {
+	return context.WithTimeout(context.Background(), opTimeout)
+}
 
 // zcompress produces real zstd data with the upstream library directly (not through the repo's pool).
 func zcompress(data []byte, opts ...zstd.EOption) []byte {
@@ -61,10 +75,26 @@ func zdecode(in []byte) ([]byte, string) {
 	case nil:
 		return out, "c"
 	case io.ErrUnexpectedEOF:
+		// ending inside a frame: does the decoder pass an error of its reader on, or does it
+		// report it as io.ErrUnexpectedEOF as well? (depends on where the input ends)
+		d2, err2 := zstd.NewReader(io.MultiReader(bytes.NewReader(in), failingReader{}))
+		if err2 != nil {
+			return out, "t"
+		}
+		defer d2.Close()
+		if _, err2 = io.ReadAll(d2); err2 == io.ErrUnexpectedEOF {
+			return out, "u"
+		}
 		return out, "t"
 	}
 	return out, "x"
 }
+
+var errReaderBroke = errors.New("reader broke")
+
+type failingReader struct{}
+
+func (failingReader) Read([]byte) (int, error) { return 0, errReaderBroke }
 
 // world is one case's universe: the backends and the real services in front of them.
 type world struct {
@@ -79,7 +109,7 @@ type world struct {
 
 func newWorld(cs, maxMsg int) *world {
 	w := &world{cas: newMemBackend(false), ac: newMemBackend(true), cs: cs, maxMsg: maxMsg}
-	w.bs = grpcservers.NewByteStreamServer(w.cas, cs, zstdPool)
+	w.bs = grpcservers.NewByteStreamServer(w.cas, cs, newPool())
 	w.casSrv = grpcservers.NewContentAddressableStorageServer(w.cas, int64(maxMsg))
 	w.acSrv = grpcservers.NewActionCacheServer(w.ac, maxMsg)
 	return w
@@ -223,7 +253,9 @@ func guard(f func() string) (reply string) {
 }
 
 func (w *world) execWrite(op *writeOp) string {
-	st := &fakeWriteStream{fakeStream: fakeStream{context.Background()}, end: endErr(op.end)}
+	ctx, cancel := opContext()
+	defer cancel()
+	st := &fakeWriteStream{fakeStream: fakeStream{ctx}, end: endErr(op.end)}
 	for i, m := range op.msgs {
 		r := &bytestream.WriteRequest{WriteOffset: m.off, Data: m.data, FinishWrite: m.fin}
 		if i == 0 {
